@@ -266,9 +266,6 @@ func (m *model) instance(c int, args []string, universe []string, allArgs []stri
 		}
 		if supplied == 0 && es.hasForm {
 			state[es.name] = es.val
-			if es.form == "nil" {
-				fs["initform-nil"] = true
-			}
 		}
 	}
 	for _, a := range args {
